@@ -29,6 +29,27 @@ func TestVerifC20LargeTicketPSK(t *testing.T) {
 		p := psk[rapid.IntRange(0, len(psk)-1).Draw(rt, "parrot")]
 		extra := rapid.SampledFrom([]int{0, 100, 120, 200, 300, 1000, 2500, 4000}).Draw(rt, "ticket_extra")
 		how := rapid.SampledFrom([]string{"SetPskExtension", "BuildWithoutSession+SetPskExtension"}).Draw(rt, "how")
+		// sha384: both connections use the parrot's spec with TLS_AES_256_GCM_SHA384 as its only TLS 1.3 suite, so the
+		// injected session has a 48-byte binder (the parrots' own lists let a Go server pick a SHA-256 suite)
+		sha384 := rapid.IntRange(0, 2).Draw(rt, "only_sha384_suite") == 0
+		newClient := func(conn *vfConn, cfg *Config) (*UConn, error) {
+			if !sha384 {
+				return UClient(conn, cfg, p.ID), nil
+			}
+			spec, err := UTLSIdToSpec(p.ID)
+			if err != nil {
+				return nil, err
+			}
+			var suites []uint16
+			for _, cs := range spec.CipherSuites {
+				if cs != TLS_AES_128_GCM_SHA256 && cs != TLS_CHACHA20_POLY1305_SHA256 {
+					suites = append(suites, cs)
+				}
+			}
+			spec.CipherSuites = suites
+			uc := UClient(conn, cfg, HelloCustom)
+			return uc, uc.ApplyPreset(&spec)
+		}
 		name := "bigticket.c20.test"
 		grab := &vf20GrabCache{}
 		st.Eval()
@@ -46,6 +67,15 @@ func TestVerifC20LargeTicketPSK(t *testing.T) {
 		c1.OmitEmptyPsk = true
 		c1.ClientSessionCache = grab
 		p1 := vfNewPair(c1, p.ID, scfg)
+		if sha384 {
+			uc1, err := newClient(p1.CP, c1)
+			if err != nil {
+				p1.Close()
+				st.Class("large-ticket-psk:sha384-spec-not-applicable")
+				return
+			}
+			p1.Cli = uc1
+		}
 		if cerr, serr := p1.Handshake(); cerr != nil || serr != nil || p1.Echo([]byte("a"), []byte("b")) != nil || grab.last == nil {
 			p1.Close()
 			st.Class("large-ticket-psk:first-connection-failed")
@@ -60,8 +90,14 @@ func TestVerifC20LargeTicketPSK(t *testing.T) {
 		cp, sp := vfPipe()
 		c2 := vfClientConfig(name)
 		c2.OmitEmptyPsk = true
-		uc := UClient(cp, c2, p.ID)
+		uc, err := newClient(cp, c2)
+		if err != nil {
+			st.Violation(rt, "%s: the spec that worked for the first connection is refused for the second: %v", p.Name, err)
+		}
 		uc.SetSessionCache(NewLRUClientSessionCache(2))
+		if sha384 && sess.cipherSuite != TLS_AES_256_GCM_SHA384 {
+			st.Violation(rt, "%s: a hello offering only TLS_AES_256_GCM_SHA384 negotiated %04x", p.Name, sess.cipherSuite)
+		}
 		desc := fmt.Sprintf("%s: TLS 1.3 session with a %d-byte ticket (server adds %d bytes of state) injected with %s", p.Name, len(ticket), extra, how)
 		if how != "SetPskExtension" {
 			if err := uc.BuildHandshakeStateWithoutSession(); err != nil {
@@ -99,6 +135,9 @@ func TestVerifC20LargeTicketPSK(t *testing.T) {
 			st.Violation(rt, "%s: not resumed (client %v, server %v)", desc, cs.DidResume, ss.DidResume)
 		}
 		st.Class(fmt.Sprintf("large-ticket-psk:resumed(+%d)", extra))
-		st.NonTrivial(fmt.Sprintf("large-ticket-psk|%s|%d|%s", p.Name, extra, how))
+		if sha384 {
+			st.Class("injected-psk:sha384-session-resumed")
+		}
+		st.NonTrivial(fmt.Sprintf("large-ticket-psk|%s|%d|%s|%v", p.Name, extra, how, sha384))
 	})
 }
